@@ -1799,6 +1799,7 @@ mod crypto {
                                 assert!(sizebuf_bytes_read <= 8);
                             }
                         }
+                        Err(ref err) if err.kind() == ErrorKind::Interrupted => continue,
                         Err(err) => return Err(err),
                     }
                     if sizebuf_bytes_read == 8 {
